@@ -134,7 +134,7 @@ class L2Cost(BaseCost):
         self._mean = self._check_param(self.param, X)
 
         self.sums_ = col_cumsum(X, init_zero=True)
-        self.sums2_ = col_cumsum(X**2, init_zero=True)
+        self.sums2_ = col_cumsum(X.astype(np.float64) ** 2, init_zero=True)
 
         return self
 
